@@ -5,6 +5,7 @@ f20_0:
   ret
   call f22_2
   call f4_0
+  mov wvsv0@GOTPCREL(%rip),%rax
   ret
 .section .text.f20_1,"ax",@progbits
 .globl f20_1
@@ -27,4 +28,5 @@ f20_2:
 f20_3:
   ret
   call f27_2
+  mov wvsv1@GOTPCREL(%rip),%rax
   ret
